@@ -12,40 +12,39 @@ Open Scope N_scope.
 Theorem translator_read_everything : translator_problems = 0%nat.
 Proof. reflexivity. Qed.
 
-(* every version gate, the recursion limit, the /VERSION leak test, the
-   inheritance of encoding, byte order and frame offset are as documented *)
-Theorem code_decision_points_as_documented : params_ok (fixflags code_params).
+(* every decision point read from /repo/src -- version gates, recursion limit,
+   /VERSION leak test, inheritance of encoding, byte order, frame offset and
+   protection, namespace push/pop around every inclusion -- is as documented *)
+Theorem code_decision_points_as_documented : params_ok code_params.
 Proof. exact code_params_ok. Qed.
 
-(* scope_agrees: for include trees of any depth, whenever the Standards define
-   the outcome, a directive interpreter with the documented decision points
-   computes exactly it: per-fragment encoding, byte order, frame offset,
-   protection, root namespace, prefix, suffix, parent, directory; every
-   definition with its full name, fragment and hidden flag; RAW file bases;
-   input codes and alias targets; the /REFERENCE code or the first RAW field;
-   and it rejects exactly the trees the Standards reject. *)
-Theorem scope_agrees : forall P t, params_ok P -> tree_plain t = true ->
+(* scope_agrees (general form): for include trees of any depth, whenever the
+   Standards define the outcome, a directive interpreter with the documented
+   decision points computes exactly it: per-fragment encoding, byte order, frame
+   offset, protection, root namespace, prefix, suffix, parent, directory; every
+   definition with its full name, fragment and hidden flag; RAW file bases and
+   LINTERP tables; input codes and alias targets; the /REFERENCE code or the
+   first RAW field; and it rejects exactly the trees the Standards reject. *)
+Theorem scope_agrees_params : forall P t, params_ok P -> tree_plain t = true ->
   match interp_spec_pre t with
   | Unspec => True
   | r => interp_impl_pre P t = r
   end.
 Proof. exact scope_agrees_any. Qed.
 
-(* the full statement about the code as it is in /repo *)
-Definition scope_agrees_statement : Prop := Main.scope_agrees_statement.
+(* scope_agrees: THE statement about the code as it is in /repo *)
+Theorem scope_agrees : forall t, tree_plain t = true ->
+  match interp_spec_pre t with
+  | Unspec => True
+  | r => interp_impl_pre code_params t = r
+  end.
+Proof. exact scope_agrees_code. Qed.
 
-(* ... holds as soon as the two flagged decision points are as the Standards
-   require (proposed fixes C09-1, C09-2) *)
-Theorem scope_agrees_when_fixed :
-  prm_prot_inherit code_params = true -> prm_ns_pop code_params = true -> scope_agrees_statement.
-Proof. exact Main.scope_agrees_when_fixed. Qed.
-
-(* ... and is violated by the unchanged code otherwise (/PROTECT not inherited;
-   /NAMESPACE of an included fragment leaking into its parent) *)
-Theorem scope_agrees_refuted :
-  prm_prot_inherit code_params = false \/ prm_ns_pop code_params = false -> ~ scope_agrees_statement.
-Proof. exact Main.scope_agrees_refuted. Qed.
-
+(* history of the pinned code (before the fix: commits "an included fragment
+   inherits the parent's /PROTECT level" and "a /NAMESPACE directive in an
+   included fragment must not leak into the parent"): with either decision point
+   set the old way the statement fails.  Parameterised by the OLD settings; the
+   check does not rely on these. *)
 Theorem protect_not_inherited_refutes : forall nspop,
   tree_plain w_prot = true /\ interp_spec_pre w_prot <> Unspec /\
   interp_impl_pre (set_flags spec_params false nspop) w_prot <> interp_spec_pre w_prot.
@@ -55,16 +54,6 @@ Theorem namespace_leak_refutes : forall prot,
   tree_plain w_ns = true /\ interp_spec_pre w_ns <> Unspec /\
   interp_impl_pre (set_flags spec_params prot false) w_ns <> interp_spec_pre w_ns.
 Proof. exact nsleak_refuted. Qed.
-
-(* exact excluded region: the unchanged code agrees with the Standards on every
-   tree on which the two decision points make no difference *)
-Theorem scope_agrees_partial : forall t, tree_plain t = true ->
-  interp_impl_pre code_params t = interp_impl_pre (fixflags code_params) t ->
-  match interp_spec_pre t with
-  | Unspec => True
-  | r => interp_impl_pre code_params t = r
-  end.
-Proof. exact Main.scope_agrees_partial. Qed.
 
 (* names: _GD_BuildCode computes the Standards' reading of a name or code
    outside the two recorded corners (one-letter r/i/m/a names qualified by a
@@ -95,7 +84,7 @@ Proof. exact affix_nesting_spec. Qed.
 
 Theorem raw_file_names_carry_no_affix : forall nf cf std ped me barth ents name lg ents' r,
   add_field nf cf std ped me barth ents name (KRaw lg) = Ok (ents', r) ->
-  exists field, ents' = ents ++ [{| e_name := field; e_frag := me; e_kind := ERaw name; e_hidden := false |}].
+  exists field, ents' = ents ++ [{| e_name := field; e_frag := me; e_kind := ERaw name lg; e_hidden := false |}].
 Proof. exact raw_file_has_no_affix. Qed.
 
 (* reference_rule: the last /REFERENCE anywhere wins, else the first RAW field *)
@@ -119,10 +108,22 @@ Theorem version_propagation : forall v v2, (sv_strict v = true -> sv_strict v2 =
     = sv_strict (spec_leave_ver v v2).
 Proof. exact leave_ver_eq. Qed.
 
-(* alias_resolution: whatever _GD_ResolveAlias returns, when it returns, is the
-   reflexive-transitive target; a chain that reaches a missing name or loops
-   back is dangling *)
-Theorem alias_resolution_partial : forall ents B t0 fuel r,
+(* alias_resolution: for every alias of the entry list, _GD_ResolveAlias as it
+   is in /repo (with its recursion bound) returns exactly the Standards' ultimate
+   target: the field at the end of the chain, or dangling for a missing name or a
+   loop.  No fuel runs out (the function is total). *)
+Theorem alias_resolution : forall ents B t0,
+  find_exact (e_name B) ents = Some B -> e_kind B = EAlias t0 ->
+  resolve_impl (prm_alias_bounded code_params) ents (e_name B) t0 = ADone (alias_spec ents t0).
+Proof. exact alias_resolution_code. Qed.
+
+Theorem alias_resolution_total : forall ents base t,
+  exists r, resolve_impl true ents base t = ADone r.
+Proof. exact resolve_impl_bounded_total. Qed.
+
+(* the relational reading: a returned target is the reflexive-transitive target;
+   without the bound a returned "dangling" means a missing name or a loop *)
+Theorem alias_resolution_relational : forall ents B t0 fuel r,
   find_exact (e_name B) ents = Some B -> e_kind B = EAlias t0 ->
   res_alias false ents fuel 0 (e_name B) t0 = ADone r ->
   match r with
@@ -131,20 +132,13 @@ Theorem alias_resolution_partial : forall ents B t0 fuel r,
   end.
 Proof. exact alias_resolution_when_it_returns. Qed.
 
-Definition alias_resolution_statement : Prop :=
-  forall ents base t, exists r, resolve_impl (prm_alias_bounded code_params) ents base t = ADone r.
-
-(* an alias pointing into a loop it is not part of: unbounded recursion *)
-Theorem alias_resolution_refuted : forall fuel, res_alias false ents_loop fuel 0 s_z s_b = ADiverge.
+(* history of the pinned code: without the bound an alias pointing into a loop it
+   is not part of recursed for ever (fix: commit "alias depth bound") *)
+Theorem alias_unbounded_refuted : forall fuel, res_alias false ents_loop fuel 0 s_z s_b = ADiverge.
 Proof. exact alias_into_loop_diverges. Qed.
 
 Theorem alias_loop_is_dangling_in_the_standards : dangling ents_loop s_b.
 Proof. exact loop_is_dangling. Qed.
-
-(* with the recursion bound of proposed fix C09-3 the function is total *)
-Theorem alias_resolution_total_when_bounded : forall ents base t,
-  exists r, resolve_impl true ents base t = ADone r.
-Proof. exact resolve_impl_bounded_total. Qed.
 
 Theorem alias_target_unique : forall ents t x x', resolves_to ents t x -> resolves_to ents t x' -> x = x'.
 Proof. exact resolves_to_unique. Qed.
